@@ -507,9 +507,15 @@ def py_iter_list(v):
     if isinstance(v, IIter):
         return v.rest()
     if isinstance(v, Rope):
-        n = const_of(rope_len_term(v))
+        lt = rope_len_term(v)
+        n = const_of(lt)
         if n is None:
-            raise OutOfReach("iteration over a sequence of symbolic length")
+            # a short sequence of symbolic length (e.g. value[:2]): one path per length
+            from .sym import ctx as _ctx
+            c = _ctx()
+            if not c.is_true(lt <= 8):
+                raise OutOfReach("iteration over a sequence of symbolic length")
+            n = c.concretize(lt, 0, 8, "sequence length")
         if v.kind == "bytes":
             return [mk_int(rope_index_term(v, i)) for i in range(n)]
         return [mk_rope("str", [BL([rope_index_term(v, i)])]) for i in range(n)]
